@@ -2,6 +2,9 @@
 //! (and rayon pool) threads. usage: dbg_c04 <kind> <depth>; prints "returned" when the call came back.
 //! kinds: cd / ca = Content::decode with a dictionary / array operand nested <depth> levels,
 //!        fd / fa = Document::load_mem of a file whose object 3 is such a dictionary / array.
+//! repetition kinds (<depth> is a count): eof = a file with <count> "%%EOF" comment lines in front of its real tail,
+//!        cmt = <count> comment lines in front of object 3, par = object 3 is a literal string of <count> nested
+//!        parentheses, cpar = Content::decode of such a string operand.
 fn nested(depth: usize, dict: bool) -> String {
     let mut s = String::new();
     for _ in 0..depth {
@@ -15,14 +18,28 @@ fn nested(depth: usize, dict: bool) -> String {
 }
 
 fn file(depth: usize, dict: bool) -> Vec<u8> {
+    file_with(&nested(depth, dict), 0, 0)
+}
+
+fn parens(count: usize) -> String {
+    format!("{}x{}", "(".repeat(count), ")".repeat(count))
+}
+
+fn file_with(object3: &str, comment_lines: usize, eof_lines: usize) -> Vec<u8> {
     let mut out = Vec::new();
     out.extend_from_slice(b"%PDF-1.4\n");
+    for _ in 0..eof_lines {
+        out.extend_from_slice(b"%%EOF\n");
+    }
     let o1 = out.len();
     out.extend_from_slice(b"1 0 obj\n<</Type/Catalog/Pages 2 0 R>>\nendobj\n");
     let o2 = out.len();
     out.extend_from_slice(b"2 0 obj\n<</Type/Pages/Kids[]/Count 0>>\nendobj\n");
+    for _ in 0..comment_lines {
+        out.extend_from_slice(b"% a comment\n");
+    }
     let o3 = out.len();
-    out.extend_from_slice(format!("3 0 obj\n{}\nendobj\n", nested(depth, dict)).as_bytes());
+    out.extend_from_slice(format!("3 0 obj\n{}\nendobj\n", object3).as_bytes());
     let x = out.len();
     out.extend_from_slice(
         format!("xref\n0 4\n0000000000 65535 f \n{:010} 00000 n \n{:010} 00000 n \n{:010} 00000 n \ntrailer\n<</Size 4/Root 1 0 R>>\nstartxref\n{}\n%%EOF\n", o1, o2, o3, x).as_bytes(),
@@ -40,6 +57,19 @@ fn main() {
             "cd" | "ca" => {
                 let s = format!("{} BDC", nested(depth, kind == "cd"));
                 let _ = lopdf::content::Content::decode(s.as_bytes());
+            }
+            "cpar" => {
+                let s = format!("{} Tj", parens(depth));
+                let _ = lopdf::content::Content::decode(s.as_bytes());
+            }
+            "eof" => {
+                let _ = lopdf::Document::load_mem(&file_with("(x)", 0, depth));
+            }
+            "cmt" => {
+                let _ = lopdf::Document::load_mem(&file_with("(x)", depth, 0));
+            }
+            "par" => {
+                let _ = lopdf::Document::load_mem(&file_with(&parens(depth), 0, 0));
             }
             _ => {
                 let _ = lopdf::Document::load_mem(&file(depth, kind == "fd"));
